@@ -115,6 +115,57 @@ func runC07(k *eng.Check, tier string) {
 			}
 			k.OnlyAfter("thunk-with-chunk", fn, "after the memtable accepted a new chunk, addChunk returns only after registering its child-address thunk", rets, 1, eng.NewSet().AddI(r.(ssa.Instruction)), eng.Point{B: guard.To(), I: 0})
 		}
+		// stronger form (correlated-branch aware): from every point where the memtable just accepted the chunk
+		// (`addChunk` call followed by a `== chunkAdded` true edge), neither a return nor another loop iteration is
+		// reachable before the registration -- in particular not through the GC-keeper wait, whose retry finds the
+		// chunk already present and would never register it
+		mtAdd := eng.Calls(fn, eng.Static("(*store/nbs.memTable).addChunk"), false)
+		if len(mtAdd) < 1 {
+			k.Unknown("thunk-with-chunk", eng.Name(fn)+"#memtable-add", "calls to memTable.addChunk", "not found")
+		}
+		regSet := eng.NewSet()
+		for _, r := range reg {
+			regSet.AddI(r.(ssa.Instruction))
+		}
+		exits := eng.NewSet()
+		for _, b := range fn.Blocks {
+			if len(b.Instrs) > 0 && b != fn.Recover {
+				if rt, ok := b.Instrs[len(b.Instrs)-1].(*ssa.Return); ok {
+					exits.AddI(rt)
+				}
+			}
+		}
+		backEdges := eng.NewSet() // the decision must be taken within the iteration that added the chunk
+		for _, l := range eng.Loops(fn) {
+			for _, b := range fn.Blocks {
+				for si, sb := range b.Succs {
+					if sb == l.Header && l.Body[b] {
+						exits.AddE(eng.Edge{From: b, Succ: si}) // back edge: next retry
+						backEdges.AddE(eng.Edge{From: b, Succ: si})
+					}
+				}
+			}
+		}
+		addedEdges := eng.CondEdgesP(fn, func(v ssa.Value) bool {
+			bo, ok := eng.IsCompare(v, token.EQL)
+			return ok && strings.HasSuffix(eng.ShortType(bo.X.Type()), "addChunkResult") && isNamedConst(c, bo.Y, "store/nbs", "chunkAdded")
+		}, true)
+		bad := ""
+		for _, a := range mtAdd {
+			// phase 1: chunkAdded-true edges reachable after this memtable add without a registration in between
+			for _, h1 := range eng.ReachFacts(fn, []eng.Point{eng.After(a.(ssa.Instruction))}, addedEdges, eng.UnionOf(regSet, eng.CallSet(fn, eng.Static("(*store/nbs.memTable).addChunk")), backEdges)) {
+				// phase 2: from there, an exit or the next iteration without registration
+				if hs := eng.ReachFacts(fn, []eng.Point{{B: h1.Edge.To(), I: 0}}, exits, regSet); len(hs) > 0 {
+					if hs[0].Instr != nil {
+						bad = c.InstrPos(hs[0].Instr)
+					} else {
+						bad = c.InstrPos(hs[0].Edge.From.Instrs[len(hs[0].Edge.From.Instrs)-1])
+					}
+				}
+			}
+		}
+		k.Require("thunk-with-chunk", eng.Name(fn)+"#no-exit-or-retry-before-registration", "once the memtable accepted a new chunk, neither a return nor another retry iteration is reached before its child-address thunk is registered", bad == "", bad,
+			"a path leaves the iteration after the chunk was added without registering its references (e.g. the GC-keeper wait): a retry finds the chunk already present and its references are never checked")
 		// persist path inside addChunk: tables.append error -> handlePossibleDanglingRefError
 		checkDanglingHandled(k, fn)
 	}
